@@ -120,6 +120,25 @@ def run_one(vec, dtype=np.float64, tl_by_name=False):
                 else:
                     raised = None
                     break
+                if via != "ctor":
+                    # the same refusal on the two-parameter models: ONE parameter is well-formed, the other one is the foreign array;
+                    # the call must be refused and BOTH parameters stay exactly as they were (a refused call changes nothing)
+                    for cname, names in (("NormalLifetime", ("mean", "std")), ("WeibullLifetime", ("weibull_shape", "weibull_scale")),
+                                         ("LogNormalLifetime", ("mean", "std"))):
+                        for bad_pos in (0, 1):
+                            lm2 = getattr(flodym, cname)(dims=U.dimset(ds), time_letter="t", **{names[0]: 3.0, names[1]: 1.5})
+                            before2 = [np.array(getattr(lm2, nm), copy=True) for nm in names]
+                            kw = {names[bad_pos]: p, names[1 - bad_pos]: 5.0}
+                            try:
+                                lm2.set_prms(**kw)
+                                problems.append(f"{{C13}} {cname}.set_prms accepted a parameter over a foreign same-letter dimension")
+                            except Exception:
+                                pass
+                            after2 = [np.asarray(getattr(lm2, nm), dtype=float) for nm in names]
+                            if any(a.shape != b.shape or not np.array_equal(a, b) for a, b in zip(after2, before2)):
+                                problems.append(f"{{C13}} a refused {cname}.set_prms({names[bad_pos]}=<foreign>, {names[1 - bad_pos]}=5.0) changed "
+                                                f"the model's parameters: {names[0]} {before2[0].ravel()[0]} -> {after2[0].ravel()[0]}, "
+                                                f"{names[1]} {before2[1].ravel()[0]} -> {after2[1].ravel()[0]}")
         elif op == "assign_foreign":
             from .universe import Dimension, DimensionSet
             l = cfg["tl"]
